@@ -5,6 +5,7 @@
 int g_i, g_j, g_k, g_l;
 int g_a, g_b, g_c, g_d;
 int g_p0, g_p1, g_p2, g_p3;
+double g_v;
 long g_live;
 unsigned g_seq;
 VF_TRACE_LIST(VF_TR_DEF)
